@@ -24,16 +24,16 @@ type Kernel struct {
 	seq     int64
 	ntasks  int
 
-	name   [maxTasks]string
-	parked [maxTasks]bool
-	point  [maxTasks]string
-	goid   [maxTasks]uint64
-	wake   [maxTasks]chan struct{}
-	ready  [maxTasks]func() bool
-	spin   [maxTasks]bool
+	name    [maxTasks]string
+	parked  [maxTasks]bool
+	point   [maxTasks]string
+	goid    [maxTasks]uint64
+	wake    [maxTasks]chan struct{}
+	ready   [maxTasks]func() bool
+	spin    [maxTasks]bool
 	lastTry [maxTasks]int64
-	epoch  int64
-	steps  [maxTasks]int32 // schedule points passed per task
+	epoch   int64
+	steps   [maxTasks]int32 // schedule points passed per task
 
 	// strategy
 	strategy  int // 0 replay/lowest, 1 uniform, 2 pct
